@@ -192,3 +192,10 @@ def function_inputs(target, seed=0, n=400):
         for a in ks:
             for b in ks:
                 yield dict(reference_key=a, estimated_key=b)
+    if target == 'chord.weighted_accuracy':
+        comps = [[1.0], [0.0], [-1.0], [1.0, 0.0], [-1.0, 1.0], [1.0, -1.0, 0.5], [0.0, 0.0, 1.0], [-1.0, -1.0], [1.0, 1.0, 1.0, 0.0], []]
+        ws = [[1.0], [0.0], [2.0, 1.0], [-1.0, 1.0], [1.0, -1.0], [0.5, -2.5, 2.0], [1.0, 0.0, 3.0], [0.0, 0.0], [1.0, 2.0, 3.0, 4.0], [-1.0, -1.0], [],
+              [1.0, 1.0, 1.0], [4.0, 0.0, 1.0, -5.0], [0.0, 1.0]]
+        for c in comps:
+            for w in ws:
+                yield dict(comparisons=c, weights=w)
